@@ -7,6 +7,7 @@ import (
 	"encoding/binary"
 	"encoding/hex"
 	"fmt"
+	"github.com/vapourismo/knx-go/knx/cemi"
 	"io"
 	"net"
 	"os"
@@ -643,6 +644,59 @@ func c16RunInner(p c16Plan) *common.Fail {
 		}
 	case "hpai":
 		return c16HPAI(p)
+	case "tcp-tunnel-close":
+		return c16TunnelClose(p)
+	}
+	return nil
+}
+
+// c16TunnelClose: "after Close the Inbound channel is closed and the receiver goroutine has ended", for the socket
+// inside a TCP tunnel: the gateway answers the connect request and writes Senders (2..6) well-formed frames in one
+// segment (optionally behind a disconnect response), which nobody reads; then the application closes the tunnel.
+func c16TunnelClose(p c16Plan) *common.Fail {
+	base := receiverGoroutines()
+	ln, err := net.Listen("tcp4", "127.0.0.1:0")
+	if err != nil {
+		return nil
+	}
+	defer ln.Close()
+	go func() {
+		c, err := ln.Accept()
+		if err != nil {
+			return
+		}
+		defer c.Close()
+		buf := make([]byte, 512)
+		if _, err := c.Read(buf); err != nil { // the connect request
+			return
+		}
+		c.Write(knxnet.AllocAndPack(&knxnet.ConnRes{Channel: 5, Status: knxnet.NoError, Control: knxnet.HostInfo{Protocol: knxnet.TCP4}}))
+		time.Sleep(5 * time.Millisecond)
+		var burst []byte
+		if p.PeerClose {
+			burst = append(burst, knxnet.AllocAndPack(&knxnet.DiscRes{Channel: 5, Status: 0})...)
+		}
+		for _, h := range p.Frames {
+			burst = append(burst, unhex(h)...)
+		}
+		c.Write(burst)
+		c.Read(buf) // stay until the client goes
+		time.Sleep(300 * time.Millisecond)
+	}()
+	tun, err := knx.NewTunnel(ln.Addr().String(), knxnet.TunnelLayerData, knx.TunnelConfig{UseTCP: true, ResendInterval: 200 * time.Millisecond, ResponseTimeout: time.Second, HeartbeatInterval: time.Hour})
+	if err != nil {
+		return nil
+	}
+	time.Sleep(time.Duration(20+p.ReaderPauseMs) * time.Millisecond)
+	done := make(chan struct{})
+	go func() { tun.Close(); close(done) }()
+	select {
+	case <-done:
+	case <-time.After(limit):
+		return common.Failf("close-hung", "tcp tunnel: Close did not return within 5 s with %d unread frames in the socket", len(p.Frames))
+	}
+	if !waitReceiversGone(base) {
+		return common.Failf("receiver-leak", "tcp tunnel: the socket's receiver goroutine is still alive 2 s after Tunnel.Close returned; the gateway had written %d frames in one segment that nobody read (disconnect response first: %v)", len(p.Frames), p.PeerClose)
 	}
 	return nil
 }
@@ -794,11 +848,18 @@ func withJunk(rt *rapid.T, frames []string, maxLen int) []string {
 }
 
 func genPlanC16(rt *rapid.T) c16Plan {
-	mode := rapid.SampledFrom([]string{"tcp-recv", "tcp-recv", "tcp-recv", "udp-recv", "tcp-send", "udp-send", "hpai", "tcp-close-race", "udp-close-race", "router-recv", "router-send"}).Draw(rt, "mode")
+	mode := rapid.SampledFrom([]string{"tcp-recv", "tcp-recv", "tcp-recv", "udp-recv", "tcp-send", "udp-send", "hpai", "tcp-close-race", "udp-close-race", "router-recv", "router-send", "tcp-tunnel-close"}).Draw(rt, "mode")
 	p := c16Plan{Mode: mode}
 	switch mode {
 	case "hpai":
 		p.TCP, p.SendLocal = rapid.Bool().Draw(rt, "tcp"), rapid.Bool().Draw(rt, "sendlocal")
+		return p
+	case "tcp-tunnel-close":
+		for i := 0; i < rapid.IntRange(1, 6).Draw(rt, "unread"); i++ {
+			p.Frames = append(p.Frames, hex.EncodeToString(knxnet.AllocAndPack(&knxnet.TunnelReq{Channel: 5, SeqNumber: uint8(i), Payload: &cemi.LDataInd{LData: confLData(i)}})))
+		}
+		p.PeerClose = rapid.Bool().Draw(rt, "discres-first")
+		p.ReaderPauseMs = rapid.SampledFrom([]int{0, 5, 30}).Draw(rt, "close-after")
 		return p
 	case "tcp-recv":
 		n := rapid.IntRange(1, 50).Draw(rt, "frames")
@@ -941,7 +1002,7 @@ func TestC16(t *testing.T) {
 			if len(p.Frames) >= 2 && len(p.Cuts) > 0 {
 				rec.NonTrivial(common.HashJSON(p))
 			}
-		} else if p.Senders >= 2 || p.Mode == "udp-recv" || p.Mode == "hpai" || strings.HasSuffix(p.Mode, "close-race") || strings.HasPrefix(p.Mode, "router-") {
+		} else if p.Senders >= 2 || p.Mode == "udp-recv" || p.Mode == "hpai" || strings.HasSuffix(p.Mode, "close-race") || p.Mode == "tcp-tunnel-close" || strings.HasPrefix(p.Mode, "router-") {
 			rec.NonTrivial(common.HashJSON(p))
 		}
 		rec.Class(cls)
